@@ -185,6 +185,9 @@ func vmMaskedDigest(srv *ircserver.IRCServer, sessions map[uint64]bool) string {
 	return d + "." + vfShort([]byte(strings.Join(recs, ";")))[:10]
 }
 
+// vmMarkerSessions: every session that received a client message in the case (LastPostMessage is read for all of them)
+var vmMarkerSessions = map[uint64]bool{}
+
 type vmReplayResult struct {
 	masked string
 	outs   map[uint64]string
@@ -229,7 +232,7 @@ func vmFsmReplay(dir string, useProto bool, entries []*vfEntry, snapAfter int, t
 		}
 	}
 	res.marker = map[uint64]uint64{}
-	for sid := range sessions {
+	for sid := range vmMarkerSessions {
 		res.marker[sid] = ircServer.LastPostMessage(robust.Id{Id: sid})
 	}
 	return res, nil
@@ -390,9 +393,13 @@ func vmRunCase(line string, base string, n int) (result string) {
 			}
 		}
 	}
+	// the duplicate-detection marker of a session that is alive at the end is the client message id of its LAST message
+	// in the log - whether that message crashed (marked), was an ordinary one, or carried an older timestamp
+	vmMarkerSessions = map[uint64]bool{}
 	for _, e := range entries {
-		if e.kind != 'i' && sessions[e.msg.Session.Id] && (e.msg.Type == robust.IRCFromClient || e.msg.Type == robust.MessageOfDeath) {
+		if e.kind != 'i' && (e.msg.Type == robust.IRCFromClient || e.msg.Type == robust.MessageOfDeath) {
 			lastCMI[e.msg.Session.Id] = e.msg.ClientMessageId
+			vmMarkerSessions[e.msg.Session.Id] = true
 		}
 	}
 	ref, err := vmFsmReplay(filepath.Join(dir, "ref"), useProto, without, -1, 0, sessions)
@@ -447,13 +454,17 @@ func vmRunCase(line string, base string, n int) (result string) {
 				verdict = "OUT-DIFF"
 			}
 			var sids []uint64
-			for sid := range sessions {
+			for sid := range vmMarkerSessions {
 				sids = append(sids, sid)
 			}
 			sort.Slice(sids, func(a, b int) bool { return sids[a] < sids[b] })
 			for _, sid := range sids {
 				if _, alive := ircServer.GetSession(robust.Id{Id: sid}); alive == nil && got.marker[sid] != lastCMI[sid] {
-					verdict = "MARKER-NOT-ADVANCED"
+					if sessions[sid] {
+						verdict = "MARKER-NOT-ADVANCED"
+					} else if verdict == "ok" {
+						verdict = "MARKER-STALE-ORDINARY-SESSION"
+					}
 				}
 			}
 		}
